@@ -16,7 +16,7 @@ add("C12", E1,
     "Trusted: the 20-line brute-force covering/validity oracle; clean host bits in VRPs; AS_SET-tail origin accepted as NONE or local AS.",
     "runtime monitoring: reference-model oracle over generated inputs and histories (debug+release, Miri slice)")
 add("C01", E2,
-    "Runtime monitor: real TableManager + real PeerSession (on_established, handle_prefix_update, do_route_refresh, flush_tx) over a loopback TCP pair; seeded histories of announce / withdraw / peer-down / GR stale+purge / LLGR mark+purge / next-hop flap / export-policy change + soft reset out / import-policy change + soft reset in / route refresh, interleaved with partial event delivery and flushes, for all 5 neighbour roles, Add-Path send-max 1-3, 1/2/4 shards, observer optionally a source itself. Bytes read from the client socket are decoded by the peer-side codec into a mirror Adj-RIB-In; at each quiescent check point the mirror must equal what a brand-new session with identical parameters is sent (which then becomes the next observer). Failing histories are delta-debugged.",
+    "Runtime monitor: real TableManager + real PeerSession (on_established, handle_prefix_update, do_route_refresh, flush_tx) over a loopback TCP pair; seeded histories of announce / withdraw / peer-down / GR stale+purge / LLGR mark+purge / next-hop flap / export-policy change + soft reset out / import-policy change + soft reset in / route refresh, interleaved with partial event delivery and flushes, for all 5 neighbour roles, Add-Path send-max 1-3, 1/2/4 shards, observer optionally a source itself. Bytes read from the client socket are decoded by the peer-side codec into a mirror Adj-RIB-In; at each quiescent check point the mirror must equal what a brand-new session with identical parameters is sent (which then becomes the next observer). Failing histories are delta-debugged. A quarter of the histories are concurrent (RIB operations from up to three source threads with delay injection while the observer keeps delivering and flushing); in half of those the observing neighbour's session comes up (initial dump + channel registration) in the middle of a burst on a populated RIB.",
     "Trusted: the peer-side decode (repo codec, negotiate(remote,local)) and the quiescence procedure (KEEPALIVE sentinel through the same socket). Sequential histories; source peers are TableManager calls in the daemon's own call order.",
     "runtime monitoring: differential oracle (incremental view vs fresh-session dump) over generated histories with delivery/flush interleavings")
 add("C02", E1,
@@ -64,11 +64,11 @@ add("C09", E2,
     "Trusted: expected_export (Suppress | Send{attrs', nexthop'}); where the statement is silent (RS-client transparency, confed MED/next hop, policy MED on eBGP, LLGR to non-LLGR peers) nothing is judged. Debug profile only (E2).",
     "runtime monitoring: reference-function oracle over an enumerated configuration matrix x generated attribute vectors")
 add("C10", E2,
-    "Runtime monitor: one op language (connect full / dying before or after OPEN, announce plain / NO_LLGR / LLGR_STALE, withdraw, EOR per family, every kind of session drop, restart-timer and per-family LLGR-timer expiry as history events through the daemon's own fire-now channels, forced down), two executors: L2 = the real accept_connection + PeerSession::run over loopback TCP with the harness as remote speaker; L1 = the real apply_disconnect / process_effects / negotiate_gr / negotiate_llgr / timer tasks on new_for_test sessions (exhaustive to depth 5 / 6 over a 16-letter alphabet x 6 GR/LLGR configurations + random), calibrated against L2 on every shard; one oracle with invariants I1-I7 (stale routes only while a timer or EOR is pending; kept vs dropped families; non-eligible drops never enter helper mode; purge at expiry / EOR; re-announced paths survive; failed reconnects leave the timer armed; NO_LLGR dropped at LLGR start). Routes carry the session epoch in their MED.",
+    "Runtime monitor: one op language (connect full / dying before or after OPEN, announce plain / NO_LLGR / LLGR_STALE, withdraw, EOR per family, every kind of session drop, restart-timer and per-family LLGR-timer expiry as history events through the daemon's own fire-now channels, forced down), two executors: L2 = the real accept_connection + PeerSession::run over loopback TCP with the harness as remote speaker; L1 = the real apply_disconnect / process_effects / negotiate_gr / negotiate_llgr / timer tasks on new_for_test sessions (exhaustive to depth 5 / 6 over a 16-letter alphabet x 6 GR/LLGR configurations + random), calibrated against L2 on every shard; one oracle with invariants I1-I7 (stale routes only while a timer or EOR is pending; kept vs dropped families; non-eligible drops never enter helper mode; purge at expiry / EOR; re-announced paths survive; failed reconnects leave the timer armed; NO_LLGR dropped at LLGR start). Routes carry the session epoch in their MED. The handlers of cancelled-but-not-fired restart / LLGR timers are input symbols of their own (a timer task that had already left its sleep when it was cancelled), offered in every later state.",
     "Trusted: the I1-I7 oracle written from the statement; L1's replica of the session_loop tail is only used when its observations equal L2's on the calibration histories (else inconclusive). Cease with N-bit other than hard reset and hold-timer expiry accept both outcomes.",
     "runtime monitoring: invariant checking at quiescent points of generated fault/timer histories (end-to-end sessions + exhaustive bounded enumeration)")
 add("C11", E2,
-    "Runtime monitor: a real RestartingDeferral in Global.selection_deferral coupled to a real TableManager through the real process_restarting_outputs / gr_selection_deferral_timer_expired (and through PeerSession::process_effects); event sequences over 3 peers x 3 families (PeerEstablished with any family subset, EOR, PeerWithdrawn, TimerExpired) enumerated exhaustively to depth 4 (quick; up to peer renaming) / 5 (thorough) plus random histories to length 40, interleaved with insert_route into deferred and non-deferred families and observed on a registered peer channel; judged by a pending-map model written from the statement: held, release-iff (not early, not late), exactly-once per prefix at release, non-GR peers never block, terminates.",
+    "Runtime monitor: a real RestartingDeferral in Global.selection_deferral coupled to a real TableManager through the real process_restarting_outputs / gr_selection_deferral_timer_expired (and through PeerSession::process_effects); event sequences over 3 peers x 3 families (PeerEstablished with any family subset, EOR, PeerWithdrawn, TimerExpired) enumerated exhaustively to depth 4 (quick; up to peer renaming) / 5 (thorough) plus random histories to length 40, interleaved with insert_route into deferred and non-deferred families and observed on a registered peer channel; judged by a pending-map model written from the statement: held, release-iff (not early, not late), exactly-once per prefix at release, non-GR peers never block, terminates. Concurrent part: one thread ends the deferral through the real glue while session threads insert / remove on three hot prefixes with delay injection at the table_manager scheduling points; at quiescence the last event per prefix on a registered peer channel must equal the RIB, untouched held prefixes are announced exactly once, the deferring flag is cleared on every shard.",
     "Trusted: the pending-map model; steps the statement leaves undefined are counted unjudged. Timer expiry is an event of the history (the glue function is called directly), not wall-clock.",
     "runtime monitoring: exhaustive bounded event-sequence enumeration + random histories against a reference model, observing the real change stream")
 add("C13", E2,
@@ -76,7 +76,7 @@ add("C13", E2,
     "Trusted: the cache model (RFC 6810/8210) and the state-based quiescence (client parked with every byte consumed); the client ignoring Cache Reset is counted unjudged.",
     "runtime monitoring: protocol peer model + fold-of-history oracle at quiescent points")
 add("C16", E2,
-    "Runtime monitor: generated configurations (static neighbours, peer groups with dynamic prefixes incl. unaligned / host-bit prefixes, confederation, route-server and reflector clients, per-family add-path / GR / LLGR / prefix limits, passive, admin-down) are loaded through the real gRPC handlers or config text -> validate -> Global::apply_config; real loopback TCP connections from 127.x.y.z and ::1 enter accept_connection in both roles while histories connect, disconnect, enable, disable, delete, re-add (also while connected) and add/delete prefixes; accepted sessions run PeerSession::run. Judged: admission against independent prefix arithmetic, zero bytes written to refused connections, the session's role / local AS / expected AS / hold time / families / add-path / GR / LLGR / prefix limits / export policy / cluster id against the neighbour's or group's configuration, dynamic-neighbour cleanup. Mirror part (E1 + E2): PeerCodec::negotiate, negotiate_gr / negotiate_llgr and the FSM's effective send-max computed from both ends' capability lists (raw, decoded through the real OPEN encode -> decode, with duplicates) must be mirror images.",
+    "Runtime monitor: generated configurations (static neighbours, peer groups with dynamic prefixes incl. unaligned / host-bit prefixes, confederation, route-server and reflector clients, per-family add-path / GR / LLGR / prefix limits, passive, admin-down) are loaded through the real gRPC handlers or config text -> validate -> Global::apply_config; real loopback TCP connections from 127.x.y.z and ::1 enter accept_connection in both roles while histories connect, disconnect, enable, disable, delete, re-add (also while connected) and add/delete prefixes; accepted sessions run PeerSession::run. Judged: admission against independent prefix arithmetic, zero bytes written to refused connections, the session's role / local AS / expected AS / hold time / families / add-path / GR / LLGR / prefix limits / export policy / cluster id against the neighbour's or group's configuration, dynamic-neighbour cleanup. Mirror part (E1 + E2): PeerCodec::negotiate, negotiate_gr / negotiate_llgr and the FSM's effective send-max computed from both ends' capability lists (raw, decoded through the real OPEN encode -> decode, with duplicates) must be mirror images. Concurrent part: a configuration change (disable / enable / delete / add / replace / dynamic-prefix change through the real gRPC handlers) runs in its own task of a multi-thread runtime while accept_connection runs in others; after both returned, an admin-down or deleted neighbour must own no session that was not told to shut down, and a surviving session must carry the parameters of a configuration that existed.",
     "Trusted: the monitor's own prefix arithmetic and configuration model; cases the statement leaves open (a refusable configured neighbour inside a dynamic prefix, precedence among overlapping groups) are counted unjudged.",
     "runtime monitoring: reference-model oracle on real accept_connection over loopback TCP + mirror-image (symmetry) invariant on negotiation over generated capability lists")
 add("C17", E2,
@@ -84,7 +84,7 @@ add("C17", E2,
     "Trusted: the wire-rule validator and the documented canonicalisations of local_path (ORIGIN/AS_PATH defaults, ORIGINATOR_ID/CLUSTER_LIST/MP_UNREACH dropped, next hop as NEXT_HOP or MP_REACH). In-process calls, no gRPC transport. Debug profile only (E2).",
     "runtime monitoring: round-trip + invariant-preservation oracle with use-after-accept probing of generated API inputs")
 add("C18", E2,
-    "Runtime monitor on real threads: writer sessions (insert/remove/peer drop+re-up), a controller toggling import policy + soft_reset_in, and subscribers that subscribe/unsubscribe at random points run against the real TableManager with delay injection at the hook points between critical sections; after quiescence each subscription's folded event stream must equal iter_reach / iter_reach_post. Thorough adds ThreadSanitizer and Miri (different schedules per -Zmiri-seed). Schedules are sampled, not enumerated.",
+    "Runtime monitor on real threads: writer sessions (insert/remove/peer drop+re-up), a controller toggling import policy + soft_reset_in, and subscribers that subscribe/unsubscribe at random points run against the real TableManager with delay injection at the hook points between critical sections; after quiescence each subscription's folded event stream must equal iter_reach / iter_reach_post. Thorough adds ThreadSanitizer and Miri (different schedules per -Zmiri-seed). Schedules are sampled, not enumerated. BMP station clause (daemon's real serve loop over loopback TCP): everything a station read is folded (PeerDown clears the peer) and must equal what established peers announced, and nothing for departed peers.",
     "Trusted: the fold (insert on reach, remove on withdraw, PeerDown clears the peer) and the ground truth read through the table's own iterators; GR stale retention not in scope.",
     "runtime monitoring: concurrent stress with delay injection + offline history fold checker; TSan + Miri schedule exploration")
 
